@@ -30,7 +30,9 @@ CONFIGS = [('unset', None), ('ctor-name', 'y'), ('ctor-name', 'nope'),
 # configuration must still be what decides
 ROUTES = ('ctor', 'set_rules', 'file', 'ctor+own', 'set_rules+own',
           # name x comes from a RuleDefault registered AFTER the first enforce
-          'file+late')
+          'file+late',
+          # no main policy file at all: the rules come from policy.d
+          'dir-only')
 
 
 def bound(tier):
@@ -90,6 +92,11 @@ def build(P, parse_rule, ruleset, cfg, route, w):
         w.write('policy.yaml', world.dumps_policy(ruleset))
         conf = world.new_conf(w.root, **overrides)
         return P.Enforcer(conf, **kw)
+    if route == 'dir-only':
+        w.mkdir('policy.d')
+        w.write('policy.d/rules.yaml', world.dumps_policy(ruleset))
+        conf = world.new_conf(w.root, **overrides)
+        return P.Enforcer(conf, **kw)
     if route == 'file+late':
         in_file = {k: v for k, v in ruleset.items() if k != 'x'}
         w.write('policy.yaml', world.dumps_policy(in_file))
@@ -123,7 +130,8 @@ def run(job, seed):
         ruleset = {n: b for n, b in zip(NAMES, bodies) if b is not None}
         for cfg in CONFIGS:
             for route in ROUTES:
-                w = world.FileWorld() if route.startswith('file') else None
+                w = world.FileWorld() if route.startswith(('file', 'dir')) \
+                    else None
                 try:
                     enf = build(P, _parser.parse_rule, ruleset, cfg, route, w)
                     acc.case('table', bool(ruleset) and len(ruleset) < 3)
@@ -172,7 +180,8 @@ def run(job, seed):
 def replay(doc):
     from oslo_policy import _parser, policy as P
     c = doc['case']
-    w = world.FileWorld() if c['route'].startswith('file') else None
+    w = world.FileWorld() if c['route'].startswith(('file', 'dir')) \
+        else None
     try:
         enf = build(P, _parser.parse_rule, c['rules'], tuple(c['config']),
                     c['route'], w)
